@@ -373,12 +373,12 @@ func (p *peer) serveListener(lis net.Listener, protoFunc ...ProtoFunc) error {
 				return
 			}
 			Infof("accept ok (network:%s, addr:%s, id:%s)", network, sess.RemoteAddr().String(), sess.ID())
+			// same order as ServeConn and Dial: ok first, then the index insert. The insert may
+			// block while the session it displaced is being closed; a takeover of this session
+			// in the meantime closes it (from ok), and the read loop then ends at once: a closed
+			// session stays closed, and the index never holds a session that is not ok yet
+			sess.changeStatus(statusOk)
 			p.sessHub.set(sess)
-			// set may block while the session it displaced is being closed; a takeover of
-			// this session in the meantime has closed it: a closed session stays closed
-			if !sess.tryChangeStatus(statusOk, statusPreparing) {
-				return
-			}
 			sess.startReadAndHandle()
 		})
 	}
